@@ -330,9 +330,11 @@ derive_closure, setx, derive_helper_closure = mk()
 def mkb():
     def hb1(q):
         return hb2(q) + v
+    def hb0(q):
+        return hb1(q)
     def derive_hb(s):
         return s.Select(
-            lambda e: hb1(e.a)
+            lambda e: hb0(e.a)
         )
     def fix_hb():
         nonlocal hb2
@@ -441,10 +443,11 @@ class HModel:
             w.g["fix_hb"]()
             w.fixed = True
         elif kind == "derive-hb" and not w.fixed:
-            # the helper's helper has no value yet: the call has to fail (any exception), and must leave no trace
+            # the helper's helper has no value yet: the call fails (or leaves the helper as a call by name - not prescribed);
+            # either way it must leave no trace in the library that changes what LATER calls emit
             try:
                 w.g["derive_hb"](w.streams[arg])
-                viol.append({"kind": "derive-with-an-unset-helper-succeeded", "msg": f"{op}"})
+                w.last = "derive-hb-tolerated"
             except Exception:
                 w.last = "derive-hb-failed"
         elif kind.startswith("derive"):
